@@ -295,6 +295,29 @@ def rw_thread_heap(text: str, methods: List[str]) -> str:
   return head + body + text[a.body_close:]
 
 
+def rw_inline_scope(text: str) -> str:
+  """R17: `LHS = RECV.scope(|self_| BODY);` is inlined per the definition of Resolver::scope (begin_scope(); cb(self); end_scope()):
+       RECV.begin_scope(); BODY' ; LHS = RECV.end_scope();        with every identifier `self_` of the whole function replaced by `self`
+     (the closure parameter is the receiver itself).  BODY is a block or a single expression; innermost closures are inlined first."""
+  while True:
+    ms = list(re.finditer(r'(\b[\w.]+(?:\.\w+)*)\s*=\s*(self_?)\s*\.\s*scope\s*\(\s*\|\s*self_\s*\|', text))
+    if not ms: break
+    m = ms[-1]                      # last = innermost or independent: its body contains no further `= ..scope(` to the right of it
+    toks = rsitems.lex(text)
+    # the '(' of scope(
+    kopen = max(k for k, t in enumerate(toks) if t.text == '(' and t.start < m.end() and t.start >= m.start())
+    kclose = rsitems.match_close(toks, kopen)
+    inner = text[m.end():toks[kclose].start].strip()
+    if inner.startswith('{') and inner.endswith('}'): inner = inner[1:-1]
+    else: inner = inner + ';'
+    after = text[toks[kclose].end:]
+    if not after.lstrip().startswith(';'): raise Undecided('R17: scope(..) is not a whole assignment statement')
+    after = after.lstrip()[1:]
+    recv = m.group(2)
+    text = text[:m.start()] + '%s.begin_scope();\n%s\n%s = %s.end_scope();' % (recv, inner, m.group(1), recv) + after
+  return ''.join(('self' if (t.kind == 'id' and t.text == 'self_') else t.text) for t in rsitems.lex(text))
+
+
 def rw_mut_self(text: str) -> str:
   """R1: `fn f(mut self, ...) { B }` -> `fn f(self, ...) { let mut this = self; B[self:=this] }`"""
   a = fn_anatomy(text)
@@ -834,6 +857,7 @@ def build_unit(name: str, variant: Optional[str] = None, canary: bool = False) -
         elif rule == 'R1': new = rw_mut_self(new)
         elif rule == 'R4g': new = rw_option_tail(new)
         elif rule == 'R15': new = rw_trace_log(new)
+        elif rule == 'R17': new = rw_inline_scope(new)
         elif rule == 'R16': new = rw_thread_heap(new, args['methods'])
         elif rule == 'R13m': new = rw_range_map_collect(new)
         elif rule == 'R3d': new = rw_drop_cfg_debug(new)
